@@ -55,8 +55,9 @@ def main():
         n = len(blob)
         offsets = sorted({0, 1, 2, 10, n // 4, n // 2, n - 2, n - 1} | (set(range(0, n, max(1, n // (40 if tier == "quick" else 400))))))
         variants = [("truncate@%d" % k, blob[:k]) for k in offsets if k < n]
-        variants += [("garbage", b"\x00\x01garbage"), ("text", b"not a pickle at all\n"),
-                     ("middle-zeroed", blob[: n // 2] + b"\x00" * 64 + blob[n // 2 + 64:]) if tier != "quick" else ("one-byte", b"\x80")]
+        variants += [("garbage", b"\x00\x01garbage"), ("text", b"not a pickle at all\n"), ("one-byte", b"\x80")]
+        # the file already has its final length but only a prefix of the data reached the disk (the rest reads as zeros)
+        variants += [("zero-tail@%d" % k, blob[:k] + b"\x00" * (n - k)) for k in (offsets[::4] if tier != "quick" else (0, 1, n // 2, n - 1))]
         for label, content in variants:
             cases += 1
             with open(cache, "wb") as f:
@@ -168,7 +169,7 @@ def main():
             failures.append({"class": "truncated-cache", "input": "absent", "observed": "%s: %s" % (type(e).__name__, e), "expected": "recompile"})
     if payload.get("mode") == "bounded":
         print(json.dumps({"performed": True, "cases": cases, "distinct_nontrivial": cases, "failures": failures,
-                          "rule": "a real .pymoca_cache is truncated at %d offsets (incl. 0, 1, n-1) and replaced by garbage, and the real save_model is killed inside its write after 0, 1, n/2, n-1 bytes; two concurrent callers meet a partial file (both loads fail before either continues); the next real transfer_model(cache=True) must return a model whose variables and residual equal a fresh compile" % len(offsets),
+                          "rule": "a real .pymoca_cache is truncated at %d offsets (incl. 0, 1, n-1) and replaced by garbage or a prefix followed by zeros up to the full length, and the real save_model is killed inside its write after 0, 1, n/2, n-1 bytes; two concurrent callers meet a partial file (both loads fail before either continues); the next real transfer_model(cache=True) must return a model whose variables and residual equal a fresh compile" % len(offsets),
                           "bound": "one model, %d file variants" % cases}))
     else:
         f = failures[0] if failures else None
